@@ -847,4 +847,8 @@ def roi_keyerror_signature(run, mi):
     for r in run.table():
         if r['dst'] is None and (r['pre'] + r['src']) not in cur:
             return SIG_ROI
+    if run.phantom:
+        # no live internal transition explains it: the stale markup left by a compound add_states still lists
+        # transitions (also removed ones) of the added state's children — the phantom-state finding
+        return SIG_PHANTOM
     return 'C16.roi.exception'
